@@ -30,6 +30,7 @@ ASSUMPTIONS = [
     "an operation preempted by a higher-priority one no longer owns the resource (ResourceLock semantics as documented)",
 ]
 MIN_NONTRIVIAL_FRACTION = 0.3
+RULE += " Added after the seeded rounds: " + 'Operations are retried under the same id (incl. equal priorities); after every step, kill and maintenance call no ended operation may own a resource; work/validate functions raise one of 16 exception types.'
 EXHAUSTIVE_NOTE = {"quick": "all request lists of length <= 3 over {r1,r2} (15) x 6 work x 4 validate x 3 background settings x 2 paths = 2160 plans, complete",
                    "thorough": "all request lists of length <= 4 over {r1,r2,zz} (121) x 6 work x 4 validate x 3 background settings x 2 paths = 17424 plans, complete"}
 
